@@ -62,6 +62,8 @@ pub struct Step<T> {
     pub written: Vec<usize>,
     pub out: Vec<Vec<T>>,
     pub alloc: u64,
+    /// allocator calls during the six getters read after the operation
+    pub alloc_getters: u64,
     pub mask: Vec<bool>,
     pub masked_call: bool,
     pub inactive_touched: bool,
@@ -116,6 +118,16 @@ pub struct HistOpts {
 impl Default for HistOpts {
     fn default() -> Self {
         HistOpts { envelope: true, record_out: false, quant32: false, stop_on_err: true }
+    }
+}
+
+/// Real frames handed over for signal channel `c` in a partial call of nominal length `k`: odd
+/// `frac` values give the channels unequal leftover lengths (the wrapper pads each channel by itself).
+pub fn partial_len(k: usize, c: usize, frac: u16) -> usize {
+    if frac & 1 == 1 && k > 1 {
+        1 + (c * 5 + k / 2) % k
+    } else {
+        k
     }
 }
 
@@ -244,7 +256,7 @@ impl<T: SampleX> Interp<T> {
                         let mut v = std::mem::take(&mut self.inbuf[c]);
                         v.clear();
                         if active(c) {
-                            for j in 0..k {
+                            for j in 0..partial_len(k, self.ch_map[c], frac.unwrap_or(0)) {
                                 v.push(self.sample(sig, c, self.pos + j as u64));
                             }
                         }
@@ -290,8 +302,9 @@ impl<T: SampleX> Interp<T> {
                     let mut v = std::mem::take(&mut self.inbuf[c]);
                     v.clear();
                     if active(c) {
+                        let kc = partial_len(k, self.ch_map[c], frac.unwrap_or(0)).min(k);
                         for j in 0..need {
-                            v.push(if j < k { self.sample(sig, c, self.pos + j as u64) } else { T::of64(0.0) });
+                            v.push(if j < kc { self.sample(sig, c, self.pos + j as u64) } else { T::of64(0.0) });
                         }
                     }
                     self.inbuf[c] = v;
@@ -385,7 +398,7 @@ impl<T: SampleX> Interp<T> {
     }
 
     fn set_step(&self, i: usize, before: Getters, after: Getters, res: StepRes, alloc: u64, ratio_set: Option<(f64, bool)>, chunk_set: Option<usize>) -> Step<T> {
-        Step { op: i, path: Path::Pib, partial: false, before, after, res, written: vec![], out: vec![], alloc, mask: vec![], masked_call: false, inactive_touched: false, supplied: 0, out_len_given: 0, ratio_set, chunk_set, in_pos: self.pos, count_known: true }
+        Step { op: i, path: Path::Pib, partial: false, before, after, res, written: vec![], out: vec![], alloc, alloc_getters: 0, mask: vec![], masked_call: false, inactive_touched: false, supplied: 0, out_len_given: 0, ratio_set, chunk_set, in_pos: self.pos, count_known: true }
     }
 
     /// `arg` is the literal argument handed to the setter (relative factor or absolute ratio)
@@ -487,7 +500,9 @@ impl<T: SampleX> Interp<T> {
                 }
             }
         }
+        let g0 = alloc::get();
         let after = self.res.getters();
+        let alloc_getters = alloc::get() - g0;
         if let StepRes::Call(Ok((ni, no))) = &res {
             tr.total_in += *ni as u64;
             if count_known {
@@ -505,6 +520,7 @@ impl<T: SampleX> Interp<T> {
             written,
             out,
             alloc: alloc_d,
+            alloc_getters,
             mask: (0..ch).map(active).collect(),
             masked_call: mv.is_some(),
             inactive_touched,
@@ -629,6 +645,12 @@ pub fn call_cost(c: &Config) -> f64 {
 /// Run a constant-configuration stream through a fresh resampler until `want_out` output frames
 /// exist; returns channel 0 of the concatenated output.
 pub fn stream_out<T: SampleX>(cfg: &Config, sig: &Signal, want_out: usize) -> Result<Vec<T>, String> {
+    stream_out_sched(cfg, sig, want_out, &[])
+}
+
+/// Same, with a cyclic set_chunk_size schedule for the sinc types: (after this many calls, new size
+/// = 1 + frac*(chunk-1)/65535); entries with 0 calls in between are applied back to back.
+pub fn stream_out_sched<T: SampleX>(cfg: &Config, sig: &Signal, want_out: usize, schedule: &[(u8, u16)]) -> Result<Vec<T>, String> {
     let mut b = build::<T>(cfg)?;
     let res = &mut b.res;
     let ch = cfg.channels;
@@ -637,7 +659,28 @@ pub fn stream_out<T: SampleX>(cfg: &Config, sig: &Signal, want_out: usize) -> Re
     let mut outbuf: Vec<Vec<T>> = res.out_alloc(true);
     let mut pos: u64 = 0;
     let mut calls = 0usize;
+    let mut sched_i = 0usize;
+    let mut since = 0u32;
     while out.len() < want_out && calls < 4_000_000 {
+        if cfg.kind.is_sinc() && !schedule.is_empty() {
+            let mut burst = 0;
+            loop {
+                let (after, frac) = schedule[sched_i % schedule.len()];
+                if since < after as u32 || burst >= 3 {
+                    break;
+                }
+                let size = 1 + (frac as usize * (cfg.chunk - 1)) / 65535;
+                res.set_chunk(size).map_err(|e| format!("set_chunk_size({}) failed: {}", size, e))?;
+                sched_i += 1;
+                burst += 1;
+                if schedule[sched_i % schedule.len()].0 != 0 {
+                    break;
+                }
+            }
+            if burst > 0 {
+                since = 0;
+            }
+        }
         let need = res.in_next();
         for (c, v) in inbuf.iter_mut().enumerate() {
             v.clear();
@@ -655,6 +698,7 @@ pub fn stream_out<T: SampleX>(cfg: &Config, sig: &Signal, want_out: usize) -> Re
         pos += ni as u64;
         out.extend_from_slice(&outbuf[0][..no]);
         calls += 1;
+        since += 1;
     }
     Ok(out)
 }
